@@ -35,6 +35,9 @@ import (
 	"time"
 
 	"github.com/bmeg/grip/engine/core"
+	"github.com/bmeg/grip/gripql"
+	"github.com/bmeg/grip/util/protoutil"
+	"google.golang.org/protobuf/types/known/structpb"
 	"github.com/bmeg/grip/gdbi"
 )
 
@@ -388,8 +391,82 @@ func (c *c01Engine) exec(op map[string]interface{}) map[string]interface{} {
 			return map[string]interface{}{"skip": true}
 		}
 		return map[string]interface{}{"t": res.typ, "rows": res.rows}
+	case "build":
+		// the Go client's query builder (gripql.Query): a prefix kept in a variable is extended
+		// twice; every derived query must be exactly its own statement list (the builder is
+		// persistent), whatever is built from the same prefix afterwards.
+		pre, e1, e2 := c01Stmts(op["pre"]), c01Stmts(op["e1"]), c01Stmts(op["e2"])
+		p, err := c01Build(gripql.NewQuery(), pre)
+		if err != nil {
+			return map[string]interface{}{"bad": "build: " + err.Error()}
+		}
+		a, err := c01Build(p, e1)
+		if err != nil {
+			return map[string]interface{}{"bad": "build: " + err.Error()}
+		}
+		b, err := c01Build(p, e2)
+		if err != nil {
+			return map[string]interface{}{"bad": "build: " + err.Error()}
+		}
+		return map[string]interface{}{"a": StmtsToJSON(a.Statements), "b": StmtsToJSON(b.Statements), "p": StmtsToJSON(p.Statements)}
 	}
 	return map[string]interface{}{"bad": "unknown op"}
+}
+
+// c01Build extends q through the builder methods of gripql.Query, one call per statement.
+func c01Build(q *gripql.Query, steps []c01Stmt) (*gripql.Query, error) {
+	stmts, err := StmtsFromJSON(toIfaces(steps))
+	if err != nil {
+		return nil, err
+	}
+	sl := func(l *structpb.ListValue) []string { return protoutil.AsStringList(l) }
+	for _, st := range stmts {
+		switch s := st.GetStatement().(type) {
+		case *gripql.GraphStatement_V:
+			q = q.V(sl(s.V)...)
+		case *gripql.GraphStatement_E:
+			q = q.E(sl(s.E)...)
+		case *gripql.GraphStatement_In:
+			q = q.In(sl(s.In)...)
+		case *gripql.GraphStatement_Out:
+			q = q.Out(sl(s.Out)...)
+		case *gripql.GraphStatement_Both:
+			q = q.Both(sl(s.Both)...)
+		case *gripql.GraphStatement_InE:
+			q = q.InE(sl(s.InE)...)
+		case *gripql.GraphStatement_OutE:
+			q = q.OutE(sl(s.OutE)...)
+		case *gripql.GraphStatement_BothE:
+			q = q.BothE(sl(s.BothE)...)
+		case *gripql.GraphStatement_Has:
+			q = q.Has(s.Has)
+		case *gripql.GraphStatement_HasLabel:
+			q = q.HasLabel(sl(s.HasLabel)...)
+		case *gripql.GraphStatement_HasKey:
+			q = q.HasKey(sl(s.HasKey)...)
+		case *gripql.GraphStatement_HasId:
+			q = q.HasID(sl(s.HasId)...)
+		case *gripql.GraphStatement_Limit:
+			q = q.Limit(s.Limit)
+		case *gripql.GraphStatement_Skip:
+			q = q.Skip(s.Skip)
+		case *gripql.GraphStatement_Range:
+			q = q.Range(s.Range.Start, s.Range.Stop)
+		case *gripql.GraphStatement_As:
+			q = q.As(s.As)
+		case *gripql.GraphStatement_Select:
+			q = q.Select(s.Select.Marks...)
+		case *gripql.GraphStatement_Fields:
+			q = q.Fields(sl(s.Fields)...)
+		case *gripql.GraphStatement_Count:
+			q = q.Count()
+		case *gripql.GraphStatement_Distinct:
+			q = q.Distinct(sl(s.Distinct)...)
+		default:
+			return nil, fmt.Errorf("no builder method used for %T", s)
+		}
+	}
+	return q, nil
 }
 
 // ---------- generators ----------
@@ -723,6 +800,19 @@ func c01RandomProgram(r *rand.Rand, n int, prod bool, withDistinct bool) []c01St
 	return q
 }
 
+// c01BuilderSteps keeps the statements gripql.Query has a plain builder method for.
+func c01BuilderSteps(q []c01Stmt) []c01Stmt {
+	out := []c01Stmt{}
+	for _, s := range q {
+		switch c01Kind(s) {
+		case "render", "path", "unwind", "aggregate":
+			continue
+		}
+		out = append(out, s)
+	}
+	return out
+}
+
 func c01Key(q []c01Stmt) string {
 	ks := make([]string, len(q))
 	for i, s := range q {
@@ -936,6 +1026,38 @@ func c01Gen(r *Run) {
 			must = true
 			query(q)
 			must = false
+		}
+	}
+	// the client-side query builder: prefixes of every length 0..14 extended twice
+	if !prod {
+		norm := func(q []c01Stmt) []interface{} {
+			st, err := StmtsFromJSON(toIfaces(q))
+			if err != nil {
+				panic(err)
+			}
+			return StmtsToJSON(st)
+		}
+		nb := 60
+		if thorough {
+			nb = 600
+		}
+		for i := 0; i < nb; i++ {
+			var q []c01Stmt
+			for len(q) < 17 {
+				q = append(q, c01BuilderSteps(c01RandomProgram(r.Rng, 8, false, true))...)
+			}
+			k := i % 15
+			pre, rest := q[:k], q[k:]
+			if k == 0 {
+				pre = nil
+			}
+			n1, n2 := 1+r.Rng.Intn(2), 1+r.Rng.Intn(2)
+			op := map[string]interface{}{"op": "build", "pre": norm(pre), "e1": norm(rest[:n1]), "e2": norm(rest[n1 : n1+n2])}
+			obs := emit(op)
+			r.Count(fmt.Sprintf("build:prefix%02d", k))
+			if _, bad := obs["bad"]; !bad {
+				r.NonTrivial(fmt.Sprintf("build:%d:%s:%s", k, c01Key(rest[:n1]), c01Key(rest[n1:n1+n2])))
+			}
 		}
 	}
 	for i := 0; i < nrand; i++ {
